@@ -557,12 +557,17 @@ fn check_note(bp: &mut BlockParser, container: &'static str) {
             let start = bp.consume(T!['('])?.span.start();
             let _ = bp.until(|t| t == T![')'])?;
             let end = bp.bump(T![')']).span.end();
+            // start of the char before the parenthesis, it may be multi-byte
+            let prev = bp.input[..start]
+                .char_indices()
+                .next_back()
+                .map_or(start, |(i, _)| i);
             bp.warn(
                 warning!(
                     format!("A {container} cannot have a note, it will be text"),
                     label!(Span::new(start, end)),
                 )
-                .label(label!(Span::pos(start - 1), "add a space here")) // this at least will be the marker character
+                .label(label!(Span::pos(prev), "add a space here")) // this at least will be the marker character
                 .hint("Notes are only available in ingredients and cookware items"),
             );
             None::<()> // always backtrack
